@@ -10,6 +10,7 @@
 -/
 import Rl.HistFile
 import Rl.Lemmas.HistFile
+import Rl.Lemmas.HistFileGap
 open Rl
 
 /-- The unescape loop never slices off a character boundary and never indexes out of range, on
@@ -237,3 +238,195 @@ example :
       = ["ab".toList] ∧
     cutAtoms (atomsOf (fileOf ["ab".toList, "é".toList])) 8 = atomsOf "#V2\nab\n".toList ++ [Atom.bad 195] := by
   decide
+
+/-! ### Gap filling (package S): exact error condition, whole sessions, appended files, torn header -/
+
+/-- Exact outcome of a load of ARBITRARY bytes, into any history: the load reports invalid-data
+    if and only if the file contains a byte that is not part of a validly encoded character, and
+    succeeds if and only if it contains none.  (So lone backslashes, unknown escapes, CR/LF mixes,
+    empty lines, a missing or repeated header … can never make a load fail, let alone panic.) -/
+theorem C12_status_exact (ws : Char → Bool) (f : List Atom) (h : FileHist) :
+    ((loadFrom ws f h).status = .invalidData ↔ ∃ b, Atom.bad b ∈ f) ∧
+    ((loadFrom ws f h).status = .ok ↔ ∀ b, Atom.bad b ∉ f) := by
+  have h1 := loadFrom_status_iff ws f h
+  refine ⟨h1, ?_⟩
+  rcases C12_no_panic ws f h with h2 | h2
+  · rw [h2] at h1 ⊢
+    simp only [reduceCtorEq, false_iff, not_exists] at h1
+    simpa using h1
+  · rw [h2] at h1 ⊢
+    simp only [true_iff] at h1
+    obtain ⟨b, hb⟩ := h1
+    constructor
+    · intro h'; cases h'
+    · intro hall; exact absurd hb (hall b)
+
+/-- No panic anywhere in a whole session.  From ANY world (any history, any file content, stale
+    or not) and for EVERY sequence of operations — adds, saves, appends (fast path and re-read
+    path), loads into the current or a fresh history, and outside events that truncate the file
+    at any byte offset, replace it by arbitrary bytes or remove it — no call ever reports the
+    status `panic`: each save / append / load ends with ok, invalid-data or (file missing) io. -/
+theorem C12_session_never_panics (ws : Char → Bool) (ops : List FOp) (w : World) :
+    ∀ o ∈ (World.run ws w ops).2, o ≠ FObs.status HfStatus.panic := by
+  have hsave : ∀ w : World, w.save.2 = .ok := by
+    intro w; simp only [World.save]; split <;> rfl
+  have hnp : ∀ f h, (loadFrom ws f h).status ≠ .panic := by
+    intro f h; rcases C12_no_panic ws f h with h' | h' <;> simp [h']
+  have hload : ∀ w : World, (w.load ws).2 ≠ .panic := by
+    intro w
+    simp only [World.load]
+    repeat' split
+    all_goals first | exact hnp _ _ | simp
+  have happ : ∀ w : World, (w.append ws).2 ≠ .panic := by
+    intro w
+    simp only [World.append]
+    repeat' split
+    all_goals first | exact hnp _ _ | (rw [hsave]; simp) | simp
+  induction ops generalizing w with
+  | nil => simp [World.run]
+  | cons op ops ih =>
+    intro o ho
+    simp only [World.run, List.mem_cons] at ho
+    rcases ho with ho | ho
+    · subst ho
+      cases op with
+      | add l => simp [World.step]
+      | save => simp [World.step, hsave]
+      | append => simpa [World.step] using happ w
+      | fresh => simp [World.step]
+      | freshLoad => simpa [World.step] using hload _
+      | load => simpa [World.step] using hload w
+      | raw => simp [World.step]
+      | dump => simp [World.step]
+      | rm => simp [World.step]
+      | cut k =>
+        simp only [World.step]
+        repeat' split
+        all_goals simp
+      | put f => simp [World.step]
+    · exact ih _ o ho
+
+/-- The conclusion of the torn-file theorem, for a load result `r` of a file that was cut after `k`
+    bytes, relative to the written entry list `es`: status ok or invalid-data; the first `j` entries
+    are complete and identical, every entry whose line lies within the first `k` bytes is among
+    them, and there is at most one more entry, which is a prefix of the `j`-th written one. -/
+def C12_TornOutcome (es : List Text) (k : Nat) (r : LoadRes) : Prop :=
+  (r.status = .ok ∨ r.status = .invalidData) ∧
+  ∃ j, j ≤ es.length ∧
+    (∀ m, m ≤ es.length → blen (fileOf (es.take m)) ≤ k → m ≤ j) ∧
+    r.h.mem.entries.take j = es.take j ∧
+    (r.h.mem.entries.length = j ∨
+     (r.h.mem.entries.length = j + 1 ∧
+      ∃ e g, es[j]? = some e ∧ r.h.mem.entries[j]? = some g ∧ g <+: e))
+
+/-- Torn file after `save` + any number of `append`s: the file that `save` wrote for `es` and that
+    was then extended by the fast path of `append` with the batches `bs` (any number of batches,
+    each any list of entries), cut at EVERY byte offset `k ≥ 4` — inside the saved part, inside any
+    appended batch, inside a multi-byte character, between a backslash and its escape letter —
+    loads without panic as the entries `es ++ bs.flatten` in order, the last one possibly cut
+    short, nothing altered, duplicated or invented (hypothesis: the combined list fits the
+    settings, which is what the fast path checks). -/
+theorem C12_prefix_appended (ws : Char → Bool) (max : Nat) (isp idp : Bool) (es : List Text)
+    (bs : List (List Text)) (hs : Storable ws max isp idp (es ++ bs.flatten)) (k : Nat) (h4 : 4 ≤ k) :
+    C12_TornOutcome (es ++ bs.flatten) k
+      (loadFrom ws (cutAtoms (appendedFile es bs) k) (FileHist.new max isp idp)) := by
+  rw [appendedFile_eq]
+  exact C12_prefix ws max isp idp _ hs k h4
+
+example : Storable (fun c => c == ' ') 9 false false (["a\n".toList] ++ [["é".toList], ["\r".toList, "z".toList]].flatten) ∧
+    appendedFile ["a\n".toList] [["é".toList], ["\r".toList, "z".toList]]
+      = atomsOf "#V2\na\\n\né\n\\r\nz\n".toList := by
+  refine ⟨⟨by decide, ?_, by simp⟩, by decide⟩
+  intro e he
+  simp only [List.flatten_cons, List.flatten_nil, List.append_nil, List.cons_append, List.nil_append,
+    List.mem_cons, List.not_mem_nil, or_false] at he
+  rcases he with rfl | rfl | rfl | rfl <;> exact ⟨by decide, by simp⟩
+
+/-- Torn HEADER (the case the property excludes, stated so that the boundary is exact): a cut at
+    offset `k < 4` never fails, and the load yields nothing for `k = 0` and `k = 3` (`#V2` without
+    its line feed is still recognised), but for `k = 1` / `k = 2` the fragment `#` / `#V` is taken
+    for a legacy file and handed to `add` as an ENTRY.  The hypothesis `4 ≤ k` of the torn-file
+    theorem is therefore necessary: see the witness below. -/
+theorem C12_header_cut (ws : Char → Bool) (max : Nat) (isp idp : Bool) (es : List Text) (k : Nat)
+    (hk : k < 4) :
+    (loadFrom ws (cutAtoms (atomsOf (fileOf es)) k) (FileHist.new max isp idp)).status = .ok ∧
+    (loadFrom ws (cutAtoms (atomsOf (fileOf es)) k) (FileHist.new max isp idp)).h.mem
+      = (addAll ws (FileHist.new max isp idp)
+          (if k = 1 then [['#']] else if k = 2 then [['#', 'V']] else [])).mem := by
+  have h1 : ('#' : Char).utf8Size = 1 := rfl
+  have h2 : ('V' : Char).utf8Size = 1 := rfl
+  have h3 : ('2' : Char).utf8Size = 1 := rfl
+  have hk' : k = 0 ∨ k = 1 ∨ k = 2 ∨ k = 3 := by omega
+  rcases hk' with rfl | rfl | rfl | rfl <;>
+    simp [fileOf, header, atomsOf, cutAtoms, h1, h2, h3, loadFrom, splitLines, decodeLine, lineText,
+      loadLines, addAll]
+
+/-- witness: a history file torn inside its header makes the next load invent the entry `#` -/
+theorem C12_header_cut_invents_entry :
+    (loadFrom (fun c => c == ' ') (cutAtoms (atomsOf (fileOf ["ab".toList])) 1) (FileHist.new 9 false false)).h.mem.entries
+      = ["#".toList] ∧
+    (loadFrom (fun c => c == ' ') (cutAtoms (atomsOf (fileOf ["ab".toList])) 2) (FileHist.new 9 false false)).h.mem.entries
+      = ["#V".toList] := by
+  decide
+
+/-- When exactly a torn file gives an error.  For EVERY entry list (storable or not), every
+    history loaded into and EVERY cut offset `k` (header included): loading the first `k` bytes of
+    the written file reports invalid-data if and only if the cut falls strictly inside the file and
+    not on a character boundary (it splits a multi-byte character); in every other case — a cut on
+    a character boundary anywhere: inside the header, between a backslash and its escape letter,
+    in the middle of a line — the load succeeds. -/
+theorem C12_torn_status_exact (ws : Char → Bool) (es : List Text) (h : FileHist) (k : Nat) :
+    ((loadFrom ws (cutAtoms (atomsOf (fileOf es)) k) h).status = .invalidData ↔
+      (k < blen (fileOf es) ∧ ¬ ∃ p, p <+: fileOf es ∧ blen p = k)) ∧
+    ((loadFrom ws (cutAtoms (atomsOf (fileOf es)) k) h).status = .ok ↔
+      (blen (fileOf es) ≤ k ∨ ∃ p, p <+: fileOf es ∧ blen p = k)) := by
+  have h1 := (C12_status_exact ws (cutAtoms (atomsOf (fileOf es)) k) h).1
+  rw [cutAtoms_bad_iff] at h1
+  refine ⟨h1, ?_⟩
+  rcases C12_no_panic ws (cutAtoms (atomsOf (fileOf es)) k) h with h2 | h2
+  · rw [h2] at h1 ⊢
+    simp only [reduceCtorEq, false_iff, not_and, true_iff] at h1 ⊢
+    rcases Nat.lt_or_ge k (blen (fileOf es)) with hk | hk
+    · exact Or.inr (Classical.not_not.mp (h1 hk))
+    · exact Or.inl hk
+  · rw [h2] at h1 ⊢
+    simp only [true_iff, reduceCtorEq, false_iff, not_or, Nat.not_le] at h1 ⊢
+    exact h1
+
+/-- both outcomes occur: `é` occupies offsets 4–5 of the file of `["é"]` -/
+example :
+    (loadFrom (fun c => c == ' ') (cutAtoms (atomsOf (fileOf ["é".toList])) 5) (FileHist.new 9 false false)).status = .invalidData ∧
+    (loadFrom (fun c => c == ' ') (cutAtoms (atomsOf (fileOf ["é".toList])) 6) (FileHist.new 9 false false)).status = .ok := by
+  decide
+
+/-- The torn-file theorem as a SESSION: in any world whose file is what `save` wrote for `es`
+    followed by any `append` batches `bs`, the outside event "the file is truncated to its first
+    `k` bytes" (any `k ≥ 4`, also beyond the end of the file, where nothing happens) followed by a
+    new session that loads the file reports a status `st` and leaves a history such that the
+    torn-file outcome holds: ok or invalid-data, the written entries in order, the last one
+    possibly cut short, nothing altered, duplicated or invented. -/
+theorem C12_session_torn (ws : Char → Bool) (w : World) (es : List Text) (bs : List (List Text))
+    (hf : w.file = some (appendedFile es bs))
+    (hs : Storable ws w.sess.fh.mem.maxLen w.sess.fh.mem.ignoreSpace w.sess.fh.mem.ignoreDups
+            (es ++ bs.flatten)) (k : Nat) (h4 : 4 ≤ k) :
+    ∃ st, (World.run ws w [.cut k, .freshLoad]).2 = [.unit, .status st] ∧
+      C12_TornOutcome (es ++ bs.flatten) k
+        { h := (World.run ws w [.cut k, .freshLoad]).1.sess.fh, status := st, appendable := false } := by
+  have hp := C12_prefix_appended ws _ _ _ es bs hs k h4
+  obtain ⟨w1, hw1, hfile1, hsess1⟩ : ∃ w1, w.step ws (.cut k) = (w1, .unit) ∧
+      w1.file = some (cutAtoms (appendedFile es bs) k) ∧ w1.sess = w.sess := by
+    simp only [World.step, hf]
+    split
+    · exact ⟨_, rfl, rfl, rfl⟩
+    · exact ⟨_, rfl, by rw [hf, cutAtoms_of_size_le _ _ (by omega)], rfl⟩
+  have hl := World.load_some ws { w1 with sess := { fh := freshHist w1.sess.fh, pathSize := none } } _ hfile1
+  have hrun : World.run ws w [.cut k, .freshLoad]
+      = ((w1.step ws .freshLoad).1, [.unit, (w1.step ws .freshLoad).2]) := by
+    simp only [World.run]; rw [hw1]
+  rw [hrun]
+  simp only [World.step]
+  refine ⟨_, rfl, ?_⟩
+  unfold C12_TornOutcome at hp ⊢
+  simp only [hsess1, freshHist] at hl ⊢
+  simp only [hl.1, hl.2]
+  exact hp
